@@ -53,6 +53,14 @@ func VerifC13_Positions() {
 		r := zzC13Operands[zzChoice("r", len(zzC13Operands))]
 		op := zzC13Ops[zzChoice("op", len(zzC13Ops))]
 		expr = l.src + sp + op + sp + r.src
+		lLit := l.src == "2" || l.src == "'x'"
+		rLit := r.src == "2" || r.src == "'x'"
+		if lLit && rLit && l.isNum != r.isNum {
+			return // comparing two literals of different kinds is rejected by the compiler; not a documented form
+		}
+		if !spaced && (op == "<" || op == "<=") && (r.src[0] >= 'a' && r.src[0] <= 'z') {
+			return // "a<b" is not parser-stable template text (it opens a tag)
+		}
 		switch op {
 		case "==", "===", "!=", "!==":
 			eq := l.isNum == r.isNum && ((l.isNum && l.num == r.num) || (!l.isNum && l.str == r.str))
@@ -100,10 +108,10 @@ func VerifC13_Positions() {
 		expr = "!" + sp + v
 		isBool, wantBool = true, v == "f"
 	case 2:
-		c := []string{"t", "f", "a" + sp + "<" + sp + "b"}[zzChoice("cond", 3)]
+		c := []string{"t", "f", "a" + sp + ">" + sp + "b"}[zzChoice("cond", 3)]
 		expr = c + sp + "?" + sp + "'yes'" + sp + ":" + sp + "'no'"
 		want = "yes"
-		if c == "f" {
+		if c != "t" {
 			want = "no"
 		}
 	case 3:
@@ -147,7 +155,11 @@ func VerifC13_Positions() {
 		zzAssert(strings.Contains(out, ">ELIF<") == wantBool, "C13.pos.v-else-if")
 		zzAssert(strings.Contains(out, "display:none") == !wantBool, "C13.pos.v-show")
 	} else {
-		zzAssert(strings.Contains(out, `data-v="`+want+`"`), "C13.pos.bound-attribute")
+		if want != "0" {
+			zzAssert(strings.Contains(out, `data-v="`+want+`"`), "C13.pos.bound-attribute")
+		} else {
+			zzAssert(!strings.Contains(out, `data-v=`), "C13.pos.bound-attribute") // falsy omits
+		}
 		zzAssert(strings.Contains(out, ">IF<"), "C13.pos.v-if")
 	}
 }
